@@ -122,3 +122,45 @@ package dns
 //@   opt exclude = user code (PrivateRdata.Pack)
 //@ func (*PrivateRR).isDuplicate
 //@   opt exclude = user code
+
+// ---- decoded values share nothing with the input buffer ------------------------------------------------------
+// Strings are immutable copies by construction (string(msg[a:b])); every byte slice stored into a decoded
+// option / parameter / record is freshly allocated.
+//@ func (*EDNS0_DAU).unpack [C16]
+//@   ensures fresh(e.AlgCode)
+//@ func (*EDNS0_DHU).unpack [C16]
+//@   ensures fresh(e.AlgCode)
+//@ func (*EDNS0_N3U).unpack [C16]
+//@   ensures fresh(e.AlgCode)
+//@ func (*EDNS0_LOCAL).unpack [C16]
+//@   ensures fresh(e.Data)
+//@ func (*EDNS0_PADDING).unpack [C16]
+//@   ensures fresh(e.Padding)
+//@ func (*EDNS0_SUBNET).unpack [C16]
+//@   ensures ret0 == nil ==> fresh(e.Address)
+//@ func (*SVCBMandatory).unpack [C16]
+//@   ensures ret0 == nil ==> fresh(s.Code)
+//@ func (*SVCBECHConfig).unpack [C16]
+//@   ensures fresh(s.ECH)
+//@ func (*SVCBLocal).unpack [C16]
+//@   ensures fresh(s.Data)
+//@ func (*SVCBIPv4Hint).unpack [C16]
+//@   ensures ret0 == nil ==> fresh(s.Hint) && (forall k in 0..len(s.Hint) :: fresh(s.Hint[k]))
+//@   loop 1 invariant fresh(b) && fresh(x) && (forall k in 0..len(x) :: fresh(x[k]))
+//@ func (*SVCBIPv6Hint).unpack [C16]
+//@   ensures ret0 == nil ==> fresh(s.Hint) && (forall k in 0..len(s.Hint) :: fresh(s.Hint[k]))
+//@   loop 1 invariant fresh(b) && fresh(x) && (forall k in 0..len(x) :: fresh(x[k]))
+//@ func unpackDataNsec [C16]
+//@   ensures fresh(ret0)
+//@   loop 1 invariant fresh(nsec)
+//@   loop 2 invariant fresh(nsec)
+//@ func unpackDataAplPrefix [C16]
+//@   ensures ret2 == nil ==> fresh(ret0.Network.IP) && fresh(ret0.Network.Mask)
+
+//@ func (*Msg).CopyTo [C16]
+//@   opt no-safety
+//@   requires r1 != nil && dns != nil
+//@   ensures ans: fresh(r1.Answer) && fresh(r1.Ns) && fresh(r1.Extra)
+//@   loop 1 invariant fresh(r1.Answer) && fresh(r1.Ns) && fresh(r1.Extra)
+//@   loop 2 invariant fresh(r1.Answer) && fresh(r1.Ns) && fresh(r1.Extra)
+//@   loop 3 invariant fresh(r1.Answer) && fresh(r1.Ns) && fresh(r1.Extra)
